@@ -70,6 +70,7 @@ func c16Worker(prop, tier string, seed uint64, from, to, stride int, deadline in
 		nmulti = 4000
 	}
 	var exhaustive []string
+	alts := world.TypeAlternatives(defs, repoDir())
 	for di := from; di < len(defs); di += stride {
 		if deadline != 0 && time.Now().Unix() > deadline {
 			res.StoppedEarly = true
@@ -100,6 +101,22 @@ func c16Worker(prop, tier string, seed uint64, from, to, stride int, deadline in
 				complete = false
 			}
 		}
+		// type swaps with sibling damage: sampled in the quick tier, complete in the thorough tier
+		ts := world.TypeSwapFaults(d.Bytes, alts)
+		if tier == "quick" || generated {
+			step := 9
+			if generated {
+				step = 40
+			}
+			var keep []world.DefFault
+			for i, f := range ts {
+				if (i+di)%step == 0 {
+					keep = append(keep, f)
+				}
+			}
+			ts = keep
+		}
+		faults = append(faults, ts...)
 		nm := nmulti
 		if generated {
 			nm = nmulti / 10
